@@ -135,6 +135,25 @@ func genCase(rt *rapid.T, misplaced bool) chainCase {
 		c.Reqs[0].LeaveMs = 5
 		c.Reqs[0].UpRetry = false
 	}
+	// "answers, but returns Continue": only for the last filter of its phase (what the filters of the same phase behind
+	// an answer that did not stop the pass do is not specified), a third of the eligible H verdicts
+	for i := range c.Recv {
+		last := true
+		for j := i + 1; j < len(c.Recv); j++ {
+			if c.Recv[j].Phase == c.Recv[i].Phase {
+				last = false
+			}
+		}
+		if !last {
+			continue
+		}
+		for r := range c.Recv[i].Scripts {
+			sc := c.Recv[i].Scripts[r]
+			if k := len(sc) - 1; k >= 0 && sc[k][0] == 'H' && rapid.IntRange(0, 2).Draw(rt, "answerAndContinue") == 0 {
+				sc[k] = "K" + sc[k][1:]
+			}
+		}
+	}
 	// entries MOSN cannot build, and the configuration delivered again (a third of the cases each)
 	if rapid.IntRange(0, 2).Draw(rt, "hasBroken") == 0 {
 		for k := rapid.IntRange(1, 2).Draw(rt, "nBroken"); k > 0; k-- {
@@ -256,11 +275,11 @@ phases:
 					break phases
 				}
 				fallthrough
-			case 'H', 'B', 'D':
+			case 'H', 'B', 'D', 'K':
 				e.Outcome, e.AnsIdx, e.AnsV = "ans", i, v
 				e.Code, _ = strconv.Atoi(v[1:])
 				e.Marker = markerOf(i, v)
-				if v[0] != 'H' && v[0] != 'Z' {
+				if v[0] != 'H' && v[0] != 'Z' && v[0] != 'K' {
 					e.Body = answerBody(i, v, tok)
 				}
 				break phases
